@@ -3,8 +3,11 @@
 Correspondence of Model/TzRules.v (get_transitions, pytz fromutc) and Model/TzCache.v (the
 process-wide cache) with the implementation; direct property oracle (rfc_offset of the model =
 the specification) on Timezone.from_ical(...).to_tz(tzp, lookup_tzid=False) under both providers.
-RRULE expansion is taken from the implementation (Timezone._extract_offsets -> dateutil.rrule)
-and supplied to the model as data.  The zoneinfo provider (dateutil.tz.tzical) has no model:
+The onsets of an observance of the common rule family (FREQ=YEARLY;BYMONTH=m;BYDAY=<n><weekday> with UNTIL, COUNT
+or neither) are computed by the model itself (Model/TzOnsets.v, tz_yearly_onsets) and compared with
+Timezone._extract_offsets and with the python calendar arithmetic below (three-way); every other RRULE / RDATE
+expansion is taken from the implementation (Timezone._extract_offsets -> dateutil.rrule) and supplied to the
+model as data.  The zoneinfo provider (dateutil.tz.tzical) has no model:
 agreement with the RFC rule / with pytz is differential testing only."""
 import datetime
 import json
@@ -21,7 +24,8 @@ FINGERPRINTS = ["cal.Timezone._extract_offsets", "cal.Timezone._make_unique_tzna
                 "cal.Component.from_ical", "prop.vDatetime.from_ical"]
 GEN = []
 ASSUMPTIONS = [
-    "times are whole seconds; an observance's onsets are DTSTART plus the RRULE/RDATE expansion computed by the "
+    "times are whole seconds; outside the yearly nth-weekday family (whose onsets the model computes, theorems "
+    "C12_yearly_onsets_*) an observance's onsets are DTSTART plus the RRULE/RDATE expansion computed by the "
     "implementation (dateutil.rrule, cut at 2038-12-31 by fix_rrule_until) and handed to the model as data",
     "pytz.tzinfo.DstTzInfo.fromutc is modelled as bisect_right-1 over the transition list (read from pytz 's source); "
     "pytz's localize()/normalize() are not used by the check",
@@ -203,12 +207,9 @@ def gen_vtz(rng, i):
 MISREAD = {}      # VTIMEZONE text -> UTC instants of onsets on which "UNTIL as local time" and "UNTIL as UTC" disagree
 
 
-def expected_onsets(text):
-    """per STANDARD/DAYLIGHT block of the text, in order: the local onsets RFC 5545 assigns to it (seconds since the epoch,
-    wall clock), computed with calendar arithmetic only -- or None where the block is outside the yearly nth-weekday
-    family.  UNTIL is a UTC instant compared with onset - TZOFFSETFROM; an unbounded rule ends with 2038 (the providers'
-    documented horizon, fix_rrule_until)."""
-    import calendar
+def _blocks(text):
+    """per STANDARD/DAYLIGHT block of the text, in order: None (not readable / seconds offsets / RDATE+RRULE / several
+    RRULEs) or (dtstart, tzoffsetfrom seconds, properties)"""
     import re
     out = []
     for blk in re.findall(r"BEGIN:(?:STANDARD|DAYLIGHT)\r?\n(.*?)END:(?:STANDARD|DAYLIGHT)", text, re.S):
@@ -227,24 +228,49 @@ def expected_onsets(text):
         if frm % 60 or "RDATE" in props and "RRULE" in props or len(props.get("RRULE", [])) > 1:
             out.append(None)
             continue
+        out.append((ds, frm, props))
+    return out
+
+
+def _yearly_rule(props):
+    """the RRULE of a block as (n, weekday 0=MO, month, parts) when it is FREQ=YEARLY;BYMONTH=m;BYDAY=<n><weekday>
+    [;UNTIL=...Z | ;COUNT=k], else None"""
+    import re
+    parts = dict(p.split("=", 1) for p in props["RRULE"][0].split(";") if "=" in p)
+    m = re.fullmatch(r"([+-]?\d)(SU|MO|TU|WE|TH|FR|SA)", parts.get("BYDAY", ""))
+    if parts.get("FREQ") != "YEARLY" or not m or not parts.get("BYMONTH", "").isdigit() or \
+            set(parts) - {"FREQ", "BYMONTH", "BYDAY", "UNTIL", "COUNT"}:
+        return None
+    if "UNTIL" in parts and not parts["UNTIL"].endswith("Z"):
+        return None
+    return int(m.group(1)), ["MO", "TU", "WE", "TH", "FR", "SA", "SU"].index(m.group(2)), int(parts["BYMONTH"]), parts
+
+
+def expected_onsets(text):
+    """per STANDARD/DAYLIGHT block of the text, in order: the local onsets RFC 5545 assigns to it (seconds since the epoch,
+    wall clock), computed with calendar arithmetic only -- or None where the block is outside the yearly nth-weekday
+    family.  UNTIL is a UTC instant compared with onset - TZOFFSETFROM; an unbounded rule ends with 2038 (the providers'
+    documented horizon, fix_rrule_until)."""
+    import calendar
+    out = []
+    for b in _blocks(text):
+        if b is None:
+            out.append(None)
+            continue
+        ds, frm, props = b
         if "RRULE" not in props:
             if "RDATE" in props:
                 out.append(None)          # RDATE lists are read by the value parser: compared through the tree elsewhere
             else:
                 out.append([secs(ds)])
             continue
-        parts = dict(p.split("=", 1) for p in props["RRULE"][0].split(";") if "=" in p)
-        m = re.fullmatch(r"([+-]?\d)(SU|MO|TU|WE|TH|FR|SA)", parts.get("BYDAY", ""))
-        if parts.get("FREQ") != "YEARLY" or not m or not parts.get("BYMONTH", "").isdigit() or \
-                set(parts) - {"FREQ", "BYMONTH", "BYDAY", "UNTIL", "COUNT"}:
+        rule = _yearly_rule(props)
+        if rule is None:
             out.append(None)
             continue
-        n, wd, mo = int(m.group(1)), ["MO", "TU", "WE", "TH", "FR", "SA", "SU"].index(m.group(2)), int(parts["BYMONTH"])
+        n, wd, mo, parts = rule
         until = None
         if "UNTIL" in parts:
-            if not parts["UNTIL"].endswith("Z"):
-                out.append(None)
-                continue
             until = datetime.datetime.strptime(parts["UNTIL"], "%Y%m%dT%H%M%SZ")
         elif "COUNT" not in parts:
             until = datetime.datetime(2038, 12, 31)
@@ -271,6 +297,45 @@ def expected_onsets(text):
             out.append(None)              # DTSTART is not an instance of its own rule: outside the family
             continue
         out.append(ons)
+    return out
+
+
+def family_rules(text):
+    """per STANDARD/DAYLIGHT block of the text, in order: the argument of the model's tz_yearly_onsets
+    [y, mo, d, h, mi, s, bymonth, n, weekday, bound, tzoffsetfrom] when the block has the shape of the yearly
+    nth-weekday family (whether DTSTART is an instance of the rule is the model's decision: it answers ["outside"]),
+    else None.  Only the text is read: nothing here comes from the implementation."""
+    out = []
+    for b in _blocks(text):
+        if b is None or "RRULE" not in b[2]:
+            out.append(None)
+            continue
+        ds, frm, props = b
+        rule = _yearly_rule(props)
+        if rule is None or not 1 <= rule[2] <= 12:
+            out.append(None)
+            continue
+        n, wd, mo, parts = rule
+        if "UNTIL" in parts and "COUNT" in parts:
+            out.append(None)
+            continue
+        if "UNTIL" in parts:
+            bound = ["until", secs(datetime.datetime.strptime(parts["UNTIL"], "%Y%m%dT%H%M%SZ"))]
+        elif "COUNT" in parts:
+            bound = ["count", int(parts["COUNT"])]
+        else:
+            bound = ["unbounded"]
+        out.append([ds.year, ds.month, ds.day, ds.hour, ds.minute, ds.second, mo, n, wd, bound, frm])
+    return out
+
+
+def with_model_onsets(obs, answers):
+    """the observances with the model's onsets in place of the implementation's wherever the model computed them"""
+    out = []
+    for o, a in zip(obs, answers):
+        if isinstance(a, list) and (not a or isinstance(a[0], int)):
+            o = [o[0], list(a)] + o[2:]
+        out.append(o)
     return out
 
 
@@ -512,10 +577,16 @@ def run(ctx, res):
     known = ctx.known
     M = ctx.model
     rows = []
-    for kind, text in cases:
+    # the onsets of every observance of the yearly nth-weekday family, computed by the MODEL from the text alone
+    # (Model/TzOnsets.v, theorems C12_yearly_onsets_*): one batch, before the implementation is asked anything
+    rules = [family_rules(text) for _, text in cases]
+    fam_out = iter(M.batch([("tz_yearly_onsets", r) for rs in rules for r in rs if r is not None])) if M else None
+    fam = {"in": 0, "outside": 0, "other": 0, "onsets": 0}
+    for (kind, text), rs in zip(cases, rules):
         res.dist(kind)
         tzc = Timezone.from_ical(text)
         obs = wire_obs(tzc)
+        answers = [next(fam_out) if (M and r is not None) else None for r in rs]
         # the onsets the implementation expands from RRULE / DTSTART against the independent calendar arithmetic
         for oi, (o, want) in enumerate(zip(obs, expected_onsets(text))):
             if want is not None:
@@ -525,6 +596,23 @@ def run(ctx, res):
                              "(UNTIL is a UTC instant, compared with onset - TZOFFSETFROM)", text,
                              observed=[str(EPOCH + datetime.timedelta(seconds=x)) for x in o[1]][-4:],
                              expected=[str(EPOCH + datetime.timedelta(seconds=x)) for x in want][-4:])
+            a = answers[oi] if oi < len(answers) else None
+            if a is None:
+                fam["other"] += 1
+                continue
+            # three-way agreement: model (proved) / implementation (_extract_offsets) / python calendar arithmetic
+            if a == ["outside"]:
+                fam["outside"] += 1
+                res.corr("observance onsets: family membership", [text, oi], "outside" if want is None else "inside", "outside")
+                continue
+            fam["in"] += 1
+            fam["onsets"] += len(a)
+            res.corr("observance onsets", [text, oi], o[1], a)
+            res.corr("observance onsets: family membership", [text, oi], "outside" if want is None else "inside", "inside")
+            if want is not None:
+                res.corr("observance onsets: python calendar arithmetic", [text, oi],
+                         [x for x in want if x < LIMIT_LOCAL], [x for x in a if x < LIMIT_LOCAL])
+        obs = with_model_onsets(obs, answers)      # from here on the model works on its own onsets for the family
         ts, utcs = instants(obs)
         row = dict(kind=kind, text=text, obs=obs, ts=ts, utcs=utcs, trans=impl_transitions(tzc), prov={})
         for provider in ("pytz", "zoneinfo"):
@@ -621,6 +709,12 @@ def run(ctx, res):
                      % (stats["pytz"][1], stats["pytz"][0], stats["zoneinfo"][1], stats["zoneinfo"][0],
                         stats["zoneinfo_far"][1], stats["zoneinfo_far"][0], stats["agree"][1], stats["agree"][0]))
     res.extra["provider_stats"] = stats
+    res.extra["family"] = fam
+    res.notes.append("observances of the yearly nth-weekday family: %d with %d onsets computed by the model "
+                     "(tz_yearly_onsets) and compared with Timezone._extract_offsets and with the python calendar "
+                     "arithmetic; %d of that shape outside the family (DTSTART not an instance of its rule); %d other "
+                     "observances (single DTSTART, RDATE, seconds offsets) keep the implementation's onsets"
+                     % (fam["in"], fam["onsets"], fam["outside"], fam["other"]))
     res.sample({"vtimezone": rows[6]["text"], "transitions (first 3)": [rows[6]["trans"][0][:3], rows[6]["trans"][1][:3]]})
     check_cache(ctx, res)
 
@@ -629,6 +723,15 @@ def replay(ctx, data):
     from icalendar import Timezone
     from icalendar.timezone import tzp
     inp = data["input"]
+    if isinstance(inp, str) and inp.startswith("BEGIN:VTIMEZONE"):       # an onset failure records the text alone
+        obs = wire_obs(Timezone.from_ical(inp))
+        answers = [ctx.model.call("tz_yearly_onsets", r) if (ctx.model and r is not None) else None for r in family_rules(inp)]
+        print(inp)
+        for oi, (o, want) in enumerate(zip(obs, expected_onsets(inp))):
+            a = answers[oi] if oi < len(answers) else None
+            show = lambda l: l if l is None or l == ["outside"] else [str(EPOCH + datetime.timedelta(seconds=x)) for x in l[-3:]]  # noqa: E731
+            print("observance", oi, "last onsets: implementation", show(o[1]), " model", show(a), " python arithmetic", show(want))
+        return
     if "vtimezone" not in inp:
         print("cache scenario:", json.dumps(inp))
         for provider in ("zoneinfo", "pytz"):
@@ -638,6 +741,12 @@ def replay(ctx, data):
     text, s = inp["vtimezone"], inp["instant"]
     tzc = Timezone.from_ical(text)
     obs = wire_obs(tzc)
+    if ctx.model:
+        answers = [ctx.model.call("tz_yearly_onsets", r) if r is not None else None for r in family_rules(text)]
+        for oi, (o, a) in enumerate(zip(obs, answers)):
+            if a is not None:
+                print("observance", oi, "onsets: model", a if a == ["outside"] else a[-3:], " implementation", o[1][-3:])
+        obs = with_model_onsets(obs, answers)
     print(text)
     for provider in ("pytz", "zoneinfo"):
         tzp.use(provider)
